@@ -261,7 +261,8 @@ def monitor(c):
         return None
     if st == "out":
         ob = out_bytes(c)
-        has_err = bool(c.get("err_b64"))
+        # stderr bytes end up in the capture (F11d) unless the producer has a stderr: file
+        has_err = bool(c.get("err_b64")) and not (c.get("prod_files", 0) & 2)
         if c.get("hang"):
             return ("a step with `output:` that prints %d bytes never finishes" % len(ob), {"class": "output-hang", "stream": "out"})
         if c.get("err"):
@@ -524,9 +525,12 @@ def candidates(c):
         ob = base64.b64decode(c.get("out_b64", "") or "")
         for i in range(len(ob)):
             out.append(dict(base, s="", out_b64=base64.b64encode(ob[:i] + ob[i + 1:]).decode(), err_b64=c.get("err_b64", ""),
-                            out0_b64=c.get("out0_b64", "")))
+                            out0_b64=c.get("out0_b64", ""), collide=c.get("collide", ""), prod_files=c.get("prod_files", 0)))
         if c.get("err_b64"):
-            out.append(dict(base, s="", out_b64=c.get("out_b64", ""), err_b64=""))
+            out.append(dict(base, s="", out_b64=c.get("out_b64", ""), err_b64="", out0_b64=c.get("out0_b64", ""), collide=c.get("collide", ""),
+                            prod_files=c.get("prod_files", 0)))
+        if c.get("prod_files") or c.get("out0_b64"):
+            out.append(dict(base, s="", out_b64=c.get("out_b64", ""), err_b64=c.get("err_b64", ""), collide=c.get("collide", "")))
     return out[:60]
 
 
@@ -561,7 +565,7 @@ def key(c):
         return ("p", c["s"])
     if c["stream"] in ("doc", "env", "loop", "subst", "cli", "restart", "retrycmd"):
         return (c["stream"], json.dumps(c["items"], sort_keys=True))
-    return ("o", c.get("gen"), c.get("size"), c.get("out_b64"), c.get("err_b64"), c.get("out0_b64"))
+    return ("o", c.get("gen"), c.get("size"), c.get("out_b64"), c.get("err_b64"), c.get("out0_b64"), c.get("collide"), c.get("prod_files"))
 
 
 def judge(ctx, tool, cases, do_shrink=True):
@@ -630,6 +634,9 @@ def run(ctx, replay_cases=None):
         and any(item_class(it) for it in c["items"]) and c["params"] == [stringify(it) for it in c["items"]])
     ctx.cov["outputs"] = {"sizes": sorted({len(out_bytes(c)) for c in cases if c["stream"] == "out" and c.get("gen") == "size"}),
                           "with_stderr": sum(1 for c in cases if c["stream"] == "out" and c.get("err_b64")),
+                          "name_collides_with_param_or_env": sum(1 for c in cases if c["stream"] == "out" and c.get("collide")),
+                          "producer_with_stdout_or_stderr_file": sum(1 for c in cases if c["stream"] == "out" and c.get("prod_files")),
+                          "producer_retried": sum(1 for c in cases if c["stream"] == "out" and c.get("out0_b64")),
                           "hung": sum(1 for c in cases if c["stream"] == "out" and c.get("hang"))}
     for st in ("doc", "loop", "out"):
         for c in [x for x in cases if x["stream"] == st][5:6]:
